@@ -42,7 +42,9 @@ def _world(prog, extra_validators=None, meta_schema=None, version=None, id_key="
         return f
     table = {"k1": kw("k1", 2), "k2": kw("k2", 1), "k0": kw("k0", 0), "kn": kw("kn", ret_none=True), "$ref": kw("$ref", 1), "if": kw("if", 1),
              "kp": kw("kp", 1, preset={"validator": "inner", "validator_value": "iv", "instance": "ii", "schema": "is"}),
-             "kx": kw("kx", raises=PyRaise("Boom", "keyword function failed"))}
+             "kx": kw("kx", raises=PyRaise("Boom", "keyword function failed")),
+             "kd1": lambda validator, value, instance, schema: iter([VE("same message")]),
+             "kd2": lambda validator, value, instance, schema: iter([VE("same message")])}
     table.update(extra_validators or {})
     id_of = lambda s: s.get(id_key, "") if isinstance(s, dict) else ""
     create = prog.func("validators.create")
@@ -77,6 +79,9 @@ def dispatch_eval(prog):
             out["all-errors"] = "keyword functions called: %r; expected each known key once with its own value, unknown keys skipped" % (called,)
         if any(c[0] == "call" and (c[3] is not I or c[4] is not s1 or c[5] is not v) for c in log):
             out["all-errors"] = "a keyword function is not called with (this validator, value, this instance, this schema)"
+        errs2 = run({"kd1": 1, "kd2": 2})
+        if len(errs2) != 2 or errs2[0] is errs2[1]:
+            out["all-errors"] = "two keywords failing with the same message at the same place give %d errors, expected both" % len(errs2)
         # stamping
         out["stamp"] = None
         for e in errs:
@@ -99,8 +104,12 @@ def dispatch_eval(prog):
         called = [(c[1], c[2]) for c in log if c[0] == "call"]
         if called != [("$ref", "#/x")]:
             out["ref-alone"] = "next to $ref these keyword functions run: %r (expected $ref alone, with the reference as its value)" % (called,)
-        if any(c[0] == "push" for c in log):
-            out["ref-alone"] = "the id written next to $ref is entered as a resolution scope"
+        if any(c[0] in ("push", "pop") for c in log):
+            out["ref-alone"] = "the id written next to $ref is entered as a resolution scope (or a scope is left that was never entered): %r" % ([c[0] for c in log],)
+        run({"k1": 1, "$id": "http://ignored/", "$ref": "#/y", "k2": 2})
+        called = [(c[1], c[2]) for c in log if c[0] == "call"]
+        if called != [("$ref", "#/y")] or any(c[0] in ("push", "pop") for c in log):
+            out["ref-alone"] = "with $ref written after its siblings these run: %r (expected $ref alone, no scope entered)" % (called,)
         run({"$ref": "", "k1": 1})
         if [(c[1]) for c in log if c[0] == "call"] != ["$ref"]:
             out["ref-alone"] = "an empty-string $ref is not treated as a reference"
@@ -176,6 +185,12 @@ def entry_points_eval(prog):
                 out["validate"] = "validate() returns a value"
         except PyRaise as pr:
             out["validate"] = "validate() raises %s for a valid instance" % pr.name
+        try:
+            g(v, "validate")(I, False)
+            out["validate"] = "validate() raises nothing for the schema false"
+        except PyRaise as pr:
+            if not (isinstance(pr.obj, Obj) and g(pr.obj, "validator") is None):
+                out["validate"] = "validate() against the schema false does not raise that schema's (keyword-less) error"
         made.clear()
         try:
             g(v, "validate")(I)
@@ -199,13 +214,13 @@ def classes_eval(prog):
     """create / extend / validates / own resolver (C16, C18, C20)."""
     out = {}
     try:
-        ev, V, VE, log, made, table, id_of = _world(prog)
+        ev, V, VE, log, made, table, id_of = _world(prog, id_key="id")
         g = lambda o, n: ev.obj_getattr(o, n)
         ca = lambda c, n: ev.expr(__import__("ast").parse("C.%s" % n, mode="eval").body, {"C": c}, None)
         # create copies what it is given
         out["create-copies"] = None
         vals, meta = ca(V, "VALIDATORS"), ca(V, "META_SCHEMA")
-        if vals is table or vals != table or meta != {"$id": "http://m/meta#", "k1": 7}:
+        if vals is table or vals != table or meta != {"id": "http://m/meta#", "k1": 7}:
             out["create-copies"] = "the class's VALIDATORS/META_SCHEMA are not equal copies of the mappings given to create()"
         table["late"] = lambda *a: None
         if "late" in ca(V, "VALIDATORS"):
@@ -224,7 +239,7 @@ def classes_eval(prog):
             out["extend"] = "extend() changes the parent's keyword table"
         elif ca(W, "META_SCHEMA") != ca(V, "META_SCHEMA") or ca(W, "TYPE_CHECKER") is not ca(V, "TYPE_CHECKER"):
             out["extend"] = "the extended class does not carry the parent's metaschema and type checker"
-        elif ca(W, "ID_OF")({"$id": "http://q/"}) != "http://q/" or ca(W, "ID_OF")({"id": "http://q/"}) != "":
+        elif ca(W, "ID_OF")({"id": "http://q/"}) != "http://q/" or ca(W, "ID_OF")({"$id": "http://q/"}) != "":
             out["extend"] = "the extended class does not read schema ids the way its parent does"
         else:
             W2 = ev.call_func(extend, [V], {"type_checker": tc})
@@ -245,7 +260,7 @@ def classes_eval(prog):
         other = _Other()
         reg_m["http://other/schema"] = other
         reg_v["other"] = other
-        evx, V1 = ev, ev.call_func(prog.func("validators.create"), [], {"meta_schema": {"$id": "http://m/v1#"}, "validators": {}, "version": "v one", "id_of": id_of})
+        evx, V1 = ev, ev.call_func(prog.func("validators.create"), [], {"meta_schema": {"id": "http://m/v1#"}, "validators": {}, "version": "v one", "id_of": id_of})
         if reg_v.get("v one") is not V1:
             out["registers"] = "create(version=...) does not register the class under its version"
         elif reg_m.get("http://m/v1") is not V1 or reg_m.get("http://m/v1#") is not V1:
@@ -258,12 +273,20 @@ def classes_eval(prog):
             V2 = ev.call_func(prog.func("validators.create"), [], {"meta_schema": {"title": "no id"}, "validators": {}, "version": "v2", "id_of": id_of})
             if reg_v.get("v2") is not V2 or len(list(iter(reg_m))) != 2:
                 out["registers"] = "a class whose metaschema has no id is registered under an id all the same (or not under its version)"
-            V3 = ev.call_func(prog.func("validators.create"), [], {"meta_schema": {"$id": "http://m/v1#"}, "validators": {}, "version": "v3", "id_of": id_of})
+            V3 = ev.call_func(prog.func("validators.create"), [], {"meta_schema": {"id": "http://m/v1#"}, "validators": {}, "version": "v3", "id_of": id_of})
             if reg_m.get("http://m/v1") is not V3:
                 out["registers"] = "a class registered later under the same metaschema id does not become the one selected"
+            # an id with a non-empty fragment is registered as written (only an empty fragment is immaterial)
+            V4 = ev.call_func(prog.func("validators.create"), [], {"meta_schema": {"id": "http://m/v4#frag"}, "validators": {}, "version": "v4", "id_of": id_of})
+            if reg_m.get("http://m/v4#frag") is not V4 or "http://m/v4" in reg_m:
+                out["registers"] = "a metaschema id with a non-empty fragment is not registered as written (ids now %r)" % (sorted(iter(reg_m)),)
+            for k in ("http://m/v4#frag", "http://m/v4"):
+                if k in reg_m:
+                    del reg_m[k]
+            reg_v.pop("v4", None)
         # own resolver
         out["own-resolver"] = None
-        s1, s2 = {"$id": "http://s/one", "k0": 1}, {"$id": "http://s/two"}
+        s1, s2 = {"id": "http://s/one", "k0": 1}, {"id": "http://s/two"}
         v1, v2 = V(s1), V(s2)
         r1, r2 = g(v1, "resolver"), g(v2, "resolver")
         if r1 is r2 or not isinstance(r1, Obj) or r1.cls.name != "RefResolver":
@@ -347,6 +370,13 @@ def selection_eval(prog):
                 break
         if sorted(iter(reg_m)) != ["http://json-schema.org/draft-04/schema"]:
             out["selection"] = "validator_for writes to the registry (%r)" % (sorted(iter(reg_m)),)
+        # a class registered after a first, failed look-up is found by the next one
+        late = _StubClass("Late", log)
+        reg_m["http://unknown/schema"] = late
+        got, ws = sel({"$schema": "http://unknown/schema#"})
+        if got is not late or ws:
+            out["selection"] = "a class registered after an unsuccessful look-up of its id is not selected afterwards (got %r)" % (got,)
+        del reg_m["http://unknown/schema"]
         # module-level validate
         out["validate"] = None
         vfn = prog.func("validators.validate")
